@@ -196,6 +196,33 @@ theorem require_spec (ps r : List Param) (h : requireMonomorphization ps = some 
   · rintro ⟨i, nm, ty, fc, hq, hne, hs⟩
     exact ⟨_, hq, hne, hs⟩
 
+/-- **C13 (HUGR index of a kept type / const variable)**: inside a partially monomorphized function (mono
+    args `m`) a variable `i` that stays generic (`m[i] = None`) is emitted — by `type_var_to_hugr` and, for a
+    `nat`-typed const variable, by `const_var_to_hugr` alike — as the HUGR variable `j = compile_variable_idx(i, m)`:
+    `i` is the `j`-th un-monomorphized parameter, so `j` is below the number `len(keptIdx m)` of type parameters
+    the lowered `FuncDefn` binds (= `len(rem_args)` by `rem_args_spec`), and distinct kept variables get distinct
+    indices.  (A const variable whose declared type is not `nat` is never emitted: `none`.) -/
+theorem hugr_var_idx (m : PInst) (ty : Ty) (i : Nat) (hi : m[i]? = some none) :
+    ∃ j, compileVariableIdx i m = some j ∧ j < (keptIdx m).length ∧ (keptIdx m)[j]? = some i ∧
+      typeVarToHugr (some m) i = some (.var j) ∧
+      (isNat ty = true → constVarToHugr (some m) ty i = some (.var j)) ∧
+      (isNat ty = false → constVarToHugr (some m) ty i = none) ∧
+      (∀ i', compileVariableIdx i' m = some j → i' = i) := by
+  obtain ⟨j, hj⟩ : ∃ j, (keptIdx m)[j]? = some i := List.mem_iff_getElem?.mp ((mem_keptIdx m i).mpr hi)
+  have hc : compileVariableIdx i m = some j := (compileVariableIdx_iff m i j).mpr hj
+  have hlt : j < (keptIdx m).length := by
+    rcases Nat.lt_or_ge j (keptIdx m).length with h | h
+    · exact h
+    · simp [List.getElem?_eq_none h] at hj
+  refine ⟨j, hc, hlt, hj, ?_, ?_, ?_, ?_⟩
+  · simp [typeVarToHugr, hi, hc]
+  · intro hn; simp [constVarToHugr, hn, hi, hc]
+  · intro hn; simp [constVarToHugr, hn]
+  · intro i' h'
+    have := (compileVariableIdx_iff m i' j).mp h'
+    rw [hj] at this
+    exact (Option.some.inj this).symm
+
 /-! ## Non-vacuity, and necessity of each hypothesis (machine-checked witnesses; the same inputs are
     replayed on the real code from `corpus/c13/`) -/
 namespace Ex
@@ -275,6 +302,8 @@ example : keptIdx [some (.ty natTy), none, none] = [1, 2] ∧
     compileVariableIdx 2 [some (.ty natTy), none, none] = some 1 ∧
     compileVariableIdx 0 [some (.ty natTy), none, none] = none := ⟨rfl, rfl, rfl⟩
 example : OccTy 0 (.bvar "T" 0 true true) := .bvar _ _ _ _
+/-- `pick(k: int @comptime, xs: array[int, n])`: params `[k, n]`, `k` monomorphized: `n` is HUGR variable 0, not 1 -/
+example : constVarToHugr (some [some (.const (.val (.num .int) (.int 3))), none]) natTy 1 = some (.var 0) := rfl
 example : requireMonomorphization ps = some [.const 1 "x" (.bvar "T" 0 true true) false, .ty 0 "T" true true] := rfl
 
 end Ex
